@@ -41,3 +41,33 @@ func verifHarnessC18LogCodec() {
 	verifAssert(verifBytesEq(v, rec.Value), "C18.logvalue-bytes")
 	verifReach("done")
 }
+
+// verifHarnessC18LogCodecWidths: the record codec at the lengths where the uvarint length fields change width
+// (127/128 and 16383/16384 bytes) for key and value; content concrete except the first and last byte of each.
+func verifHarnessC18LogCodecWidths() {
+	lens := []int{0, 1, 127, 128, 129, 16383, 16384, 16385}
+	klens := []int{1, 127, 128, 16384}
+	kl := klens[verifChoice("klen", len(klens))]
+	vl := lens[verifChoice("vlen", len(lens))]
+	key := make([]byte, kl)
+	val := make([]byte, vl)
+	key[0], key[kl-1] = verifU8("k0"), verifU8("k1")
+	if vl > 0 {
+		val[0] = verifU8("v0")
+		val[vl-1] = verifU8("v1")
+	}
+	rec := &LogRecord{Type: LogRecordNormal, BatchID: verifU64("batch"), Key: key, Value: val}
+	hdr := make([]byte, MaxLogRecordHeaderSize)
+	buf := bytebufferpool.Get()
+	EncodeLogRecord(rec, hdr, buf)
+	r2 := DecodeLogRecord(buf.B)
+	verifAssert(r2.BatchID == rec.BatchID, "C18.widths-batchid")
+	verifAssert(len(r2.Key) == kl && len(r2.Value) == vl, "C18.widths-lens")
+	verifAssert(r2.Key[0] == key[0] && r2.Key[kl-1] == key[kl-1], "C18.widths-key-bytes")
+	v := DecodeLogRecordValue(buf.B)
+	verifAssert(len(v) == vl, "C18.widths-value-len")
+	if vl > 0 {
+		verifAssert(v[0] == val[0] && v[vl-1] == val[vl-1] && r2.Value[0] == val[0] && r2.Value[vl-1] == val[vl-1], "C18.widths-value-bytes")
+	}
+	verifReach("done")
+}
